@@ -316,12 +316,12 @@ impl Source for MemSource {
         let mut s = self.lock();
         let fault = Self::check_fault(&mut s, "read");
         let res: io::Result<Arc<[u8]>> = if let Some(k) = fault {
-            Err(io::Error::new(k, "injected fault"))
+            Err(io::Error::new(k, format!("mem:{id}:{ext}:injected fault")))
         } else {
             match s.files.get(&(id.to_string(), ext.to_string())) {
                 Some(Content::Bytes(b)) => Ok(b.clone()),
-                Some(Content::Unreadable(k)) => Err(io::Error::new(*k, "unreadable file")),
-                None => Err(io::Error::new(io::ErrorKind::NotFound, "no such file")),
+                Some(Content::Unreadable(k)) => Err(io::Error::new(*k, format!("mem:{id}:{ext}:unreadable file"))),
+                None => Err(io::Error::new(io::ErrorKind::NotFound, format!("mem:{id}:{ext}:no such file"))),
             }
         };
         let delivery = match s.delivery {
@@ -352,11 +352,11 @@ impl Source for MemSource {
         let mut s = self.lock();
         let fault = Self::check_fault(&mut s, "readdir");
         let res = if let Some(k) = fault {
-            Err(io::Error::new(k, "injected fault"))
+            Err(io::Error::new(k, format!("mem:{id}::injected fault")))
         } else if let Some(k) = s.bad_dirs.get(id) {
-            Err(io::Error::new(*k, "unreadable directory"))
+            Err(io::Error::new(*k, format!("mem:{id}::unreadable directory")))
         } else if !Self::dir_exists(&s, id) {
-            Err(io::Error::new(io::ErrorKind::NotFound, "no such directory"))
+            Err(io::Error::new(io::ErrorKind::NotFound, format!("mem:{id}::no such directory")))
         } else {
             Ok(Self::children(&s, id))
         };
